@@ -11,6 +11,7 @@ import Driver.FlacC
 import Driver.OpenFile
 import Driver.Id3Date
 import Driver.Dict
+import Driver.Id3Spec
 open Driver
 
 def dispatch (line : String) : String :=
@@ -30,6 +31,7 @@ def dispatch (line : String) : String :=
     | "open" => openOp a
     | "id3date" => id3dateOp a
     | "dict" => dictOp a
+    | "id3spec" => id3specOp a
     | "flacinfo" => flacInfoOp a
     | "ping" => "pong"
     | _ => "bad-op"
